@@ -69,7 +69,7 @@ SAFE_BUILTINS: Dict[str, Any] = {
     "frozenset": frozenset, "sorted": sorted, "reversed": lambda x: list(reversed(x)), "enumerate": lambda x, s=0: list(enumerate(x, s)),
     "zip": lambda *a: list(zip(*a)), "range": range, "any": any, "all": all, "max": max, "min": min, "abs": abs, "sum": sum,
     "callable": callable, "id": id, "True": True, "False": False, "None": None, "Ellipsis": Ellipsis,
-    "object": lambda: Obj("object"),
+    "object": lambda: Obj("object"), "type": type, "float": float, "bytes": bytes,
 }
 SAFE_METHOD_OWNERS = (dict, list, set, frozenset, tuple, str)
 
